@@ -19,6 +19,10 @@ pub enum ParseError {
     Other,
 }
 
+// the grammar refers to its helper module as `util`
+pub mod util {
+//@item src/lib/util/preprocessor_util.rs const DATA_OVERFLOW
+}
 //@item src/lib/util/preprocessor_util.rs enum LabelType
 //@item src/lib/util/preprocessor_util.rs struct Label
 impl Label {
@@ -49,6 +53,15 @@ impl SourceMapper {
 }
 //@item src/lib/util/preprocessor_util.rs struct Context
 //@item src/lib/util/preprocessor_util.rs struct Output
+impl Context {
+//@fn src/lib/util/preprocessor_util.rs advance_data_counter
+//@contract
+        ensures r == (old(self).data_counter + size <= 65535),
+            final(self).data_counter == (if r { (old(self).data_counter + size) as u16 } else { old(self).data_counter }),
+            final(self).label_map@ == old(self).label_map@, final(self).fn_map@ == old(self).fn_map@,
+            final(self).mapper == old(self).mapper, final(self).undefined_labels@ == old(self).undefined_labels@,
+//@end
+}
 
 // ------------------------------------------------------------------ every emitting production
 //@emitters
@@ -140,6 +153,140 @@ impl SourceMapper {
             && final(out).code@.len() == old(out).code@.len() + 1
             && final(out).code@.subrange(0, old(out).code@.len() as int) == old(out).code@,
         final(out).data@ == old(out).data@, final(context).label_map@ == old(context).label_map@, final(context).fn_map@ == old(context).fn_map@,
+//@end
+
+
+// ------------------------------------------------------------------ data directives (C12)
+//@action src/lib/preprocessor/preprocessor.rs db_directive = label, quote_db, s_byte_num as as_db_value
+//@contract
+    requires vstd::std_specs::hash::obeys_key_model::<String>(),
+    ensures
+        // the label denotes the offset of the first byte of the definition (the counter BEFORE it is advanced),
+        // the counter advances by the size of the definition, one loader line is emitted
+        old(context).data_counter + 1 <= 65535 ==> r.is_ok()
+            && final(context).data_counter == old(context).data_counter + 1
+            && final(out).data@.len() == old(out).data@.len() + 1
+            && final(out).data@.subrange(0, old(out).data@.len() as int) == old(out).data@
+            && (l is None ==> final(context).label_map@ == old(context).label_map@)
+            && (l is Some ==> final(context).label_map@.contains_key(l->0)
+                    && final(context).label_map@ == old(context).label_map@.insert(l->0, final(context).label_map@[l->0])
+                    && final(context).label_map@[l->0].map == old(context).data_counter
+                    && final(context).label_map@[l->0].r#type is DATA),
+        // definitions that do not fit in the 64 KiB segment are diagnosed: nothing is emitted, no label defined
+        old(context).data_counter + 1 > 65535 ==> r.is_err() && final(context).data_counter == old(context).data_counter
+            && final(out).data@ == old(out).data@ && final(context).label_map@ == old(context).label_map@,
+        final(out).code@ == old(out).code@, final(context).fn_map@ == old(context).fn_map@,
+//@end
+
+//@action src/lib/preprocessor/preprocessor.rs db_directive = label, quote_db, "[", u_word_num, "]" as as_db_zeros
+//@contract
+    requires vstd::std_specs::hash::obeys_key_model::<String>(),
+    ensures
+        // the label denotes the offset of the first byte of the definition (the counter BEFORE it is advanced),
+        // the counter advances by the size of the definition, one loader line is emitted
+        old(context).data_counter + n <= 65535 ==> r.is_ok()
+            && final(context).data_counter == old(context).data_counter + n
+            && final(out).data@.len() == old(out).data@.len() + 1
+            && final(out).data@.subrange(0, old(out).data@.len() as int) == old(out).data@
+            && (l is None ==> final(context).label_map@ == old(context).label_map@)
+            && (l is Some ==> final(context).label_map@.contains_key(l->0)
+                    && final(context).label_map@ == old(context).label_map@.insert(l->0, final(context).label_map@[l->0])
+                    && final(context).label_map@[l->0].map == old(context).data_counter
+                    && final(context).label_map@[l->0].r#type is DATA),
+        // definitions that do not fit in the 64 KiB segment are diagnosed: nothing is emitted, no label defined
+        old(context).data_counter + n > 65535 ==> r.is_err() && final(context).data_counter == old(context).data_counter
+            && final(out).data@ == old(out).data@ && final(context).label_map@ == old(context).label_map@,
+        final(out).code@ == old(out).code@, final(context).fn_map@ == old(context).fn_map@,
+//@end
+
+//@action src/lib/preprocessor/preprocessor.rs db_directive = label, quote_db, "[", s_byte_num, ",", u_word_num, "]" as as_db_fill
+//@contract
+    requires vstd::std_specs::hash::obeys_key_model::<String>(),
+    ensures
+        // the label denotes the offset of the first byte of the definition (the counter BEFORE it is advanced),
+        // the counter advances by the size of the definition, one loader line is emitted
+        old(context).data_counter + n <= 65535 ==> r.is_ok()
+            && final(context).data_counter == old(context).data_counter + n
+            && final(out).data@.len() == old(out).data@.len() + 1
+            && final(out).data@.subrange(0, old(out).data@.len() as int) == old(out).data@
+            && (l is None ==> final(context).label_map@ == old(context).label_map@)
+            && (l is Some ==> final(context).label_map@.contains_key(l->0)
+                    && final(context).label_map@ == old(context).label_map@.insert(l->0, final(context).label_map@[l->0])
+                    && final(context).label_map@[l->0].map == old(context).data_counter
+                    && final(context).label_map@[l->0].r#type is DATA),
+        // definitions that do not fit in the 64 KiB segment are diagnosed: nothing is emitted, no label defined
+        old(context).data_counter + n > 65535 ==> r.is_err() && final(context).data_counter == old(context).data_counter
+            && final(out).data@ == old(out).data@ && final(context).label_map@ == old(context).label_map@,
+        final(out).code@ == old(out).code@, final(context).fn_map@ == old(context).fn_map@,
+//@end
+
+//@action src/lib/preprocessor/preprocessor.rs dw_directive = label, quote_dw, s_word_num as as_dw_value
+//@contract
+    requires vstd::std_specs::hash::obeys_key_model::<String>(),
+    ensures
+        // the label denotes the offset of the first byte of the definition (the counter BEFORE it is advanced),
+        // the counter advances by the size of the definition, one loader line is emitted
+        old(context).data_counter + 2 <= 65535 ==> r.is_ok()
+            && final(context).data_counter == old(context).data_counter + 2
+            && final(out).data@.len() == old(out).data@.len() + 1
+            && final(out).data@.subrange(0, old(out).data@.len() as int) == old(out).data@
+            && (l is None ==> final(context).label_map@ == old(context).label_map@)
+            && (l is Some ==> final(context).label_map@.contains_key(l->0)
+                    && final(context).label_map@ == old(context).label_map@.insert(l->0, final(context).label_map@[l->0])
+                    && final(context).label_map@[l->0].map == old(context).data_counter
+                    && final(context).label_map@[l->0].r#type is DATA),
+        // definitions that do not fit in the 64 KiB segment are diagnosed: nothing is emitted, no label defined
+        old(context).data_counter + 2 > 65535 ==> r.is_err() && final(context).data_counter == old(context).data_counter
+            && final(out).data@ == old(out).data@ && final(context).label_map@ == old(context).label_map@,
+        final(out).code@ == old(out).code@, final(context).fn_map@ == old(context).fn_map@,
+//@end
+
+//@action src/lib/preprocessor/preprocessor.rs dw_directive = label, quote_dw, "[", u_word_num, "]" as as_dw_zeros
+//@contract
+    requires vstd::std_specs::hash::obeys_key_model::<String>(),
+    ensures
+        // the label denotes the offset of the first byte of the definition (the counter BEFORE it is advanced),
+        // the counter advances by the size of the definition, one loader line is emitted
+        old(context).data_counter + 2 * n <= 65535 ==> r.is_ok()
+            && final(context).data_counter == old(context).data_counter + 2 * n
+            && final(out).data@.len() == old(out).data@.len() + 1
+            && final(out).data@.subrange(0, old(out).data@.len() as int) == old(out).data@
+            && (l is None ==> final(context).label_map@ == old(context).label_map@)
+            && (l is Some ==> final(context).label_map@.contains_key(l->0)
+                    && final(context).label_map@ == old(context).label_map@.insert(l->0, final(context).label_map@[l->0])
+                    && final(context).label_map@[l->0].map == old(context).data_counter
+                    && final(context).label_map@[l->0].r#type is DATA),
+        // definitions that do not fit in the 64 KiB segment are diagnosed: nothing is emitted, no label defined
+        old(context).data_counter + 2 * n > 65535 ==> r.is_err() && final(context).data_counter == old(context).data_counter
+            && final(out).data@ == old(out).data@ && final(context).label_map@ == old(context).label_map@,
+        final(out).code@ == old(out).code@, final(context).fn_map@ == old(context).fn_map@,
+//@end
+
+//@action src/lib/preprocessor/preprocessor.rs dw_directive = label, quote_dw, "[", s_word_num, ",", u_word_num, "]" as as_dw_fill
+//@contract
+    requires vstd::std_specs::hash::obeys_key_model::<String>(),
+    ensures
+        // the label denotes the offset of the first byte of the definition (the counter BEFORE it is advanced),
+        // the counter advances by the size of the definition, one loader line is emitted
+        old(context).data_counter + 2 * n <= 65535 ==> r.is_ok()
+            && final(context).data_counter == old(context).data_counter + 2 * n
+            && final(out).data@.len() == old(out).data@.len() + 1
+            && final(out).data@.subrange(0, old(out).data@.len() as int) == old(out).data@
+            && (l is None ==> final(context).label_map@ == old(context).label_map@)
+            && (l is Some ==> final(context).label_map@.contains_key(l->0)
+                    && final(context).label_map@ == old(context).label_map@.insert(l->0, final(context).label_map@[l->0])
+                    && final(context).label_map@[l->0].map == old(context).data_counter
+                    && final(context).label_map@[l->0].r#type is DATA),
+        // definitions that do not fit in the 64 KiB segment are diagnosed: nothing is emitted, no label defined
+        old(context).data_counter + 2 * n > 65535 ==> r.is_err() && final(context).data_counter == old(context).data_counter
+            && final(out).data@ == old(out).data@ && final(context).label_map@ == old(context).label_map@,
+        final(out).code@ == old(out).code@, final(context).fn_map@ == old(context).fn_map@,
+//@end
+
+//@action src/lib/preprocessor/preprocessor.rs set_directive = quote_set, u_word_num as as_set
+//@contract
+    ensures final(context).data_counter == 0, final(out).data@.len() == old(out).data@.len() + 1,
+        final(out).code@ == old(out).code@, final(context).label_map@ == old(context).label_map@,
 //@end
 
 // unsupported instructions are always refused
